@@ -495,3 +495,26 @@ def main(pid: str, run):
     if ck is not None and not os.environ.get("VERIF_KEEP_WORK"):
         shutil.rmtree(ck.work, ignore_errors=True)
     sys.exit(rc)
+
+
+class Promote:
+    """Proxy of a Check for a specification-growth module wired into a property check: the listed
+    observation clauses ARE clauses of that property and become violations (with the given signature);
+    every other observation stays an observation."""
+
+    def __init__(self, ck: Check, clauses: dict):
+        object.__setattr__(self, "_ck", ck)
+        object.__setattr__(self, "_clauses", clauses)
+
+    def __getattr__(self, name):
+        return getattr(self._ck, name)
+
+    def __setattr__(self, name, value):
+        setattr(self._ck, name, value)
+
+    def observe(self, clause, signature, detail):
+        if clause in self._clauses:
+            new_clause, sig = self._clauses[clause]
+            self._ck.violation(new_clause, dict(sig), dict(detail, growth_signature=signature))
+        else:
+            self._ck.observe(clause, signature, detail)
